@@ -849,7 +849,7 @@ class Conditioned:
         if accepts_prev_gains(self.evaluator):
             kwargs = kwargs.copy()
             kwargs['prev_gains'] = prev_gains
-        if accepts_seats(self.evaluator):
+        if accepts_seats(self.evaluator) and n_seats is not None:
             return self.evaluator.evaluate(
                 elim_votes, n_seats, **kwargs
             )
